@@ -13,6 +13,8 @@
 (*   subs     per reaction: "none" | "num" (k<i> := subvals[i]) | "expr" (k<i> := aval * T,   *)
 (*            T a new parameter) | "expruk" (the same with the factor carried under the       *)
 (*            unique key 'a1')                                                                *)
+(*   alias    the substances are handed over under alias keys: OrderedDict(key -> Substance whose   *)
+(*            name differs from the key); names of the ODE system are the KEYS                    *)
 (*   cstr     stirred-tank terms requested (feed variables feedratio, fc_<s>)                 *)
 (*   kinds may also be "ma_pk": MassAction(v * g) where g is a PARAMETER KEY shared by all     *)
 (*            such reactions (like a temperature); parameter keys (g, feedratio) are resolved  *)
@@ -59,8 +61,12 @@ Kinds == {"num", "ma_num", "str", "ma_fk", "ma_uk", "ma_pk", "ma_uk2"}
 SubKinds == {"none", "num", "num2", "expr", "expruk"}
 Named(kd) == kd \in {"str", "ma_fk", "ma_uk"}        \* the constant has a key k<i>
 HasDefault(kd) == kd \in {"num", "ma_num", "ma_uk", "ma_pk", "ma_uk2"}  \* the reaction carries a number
-TVar == "T"
-AVar == "a1"
+\* expression substitutions: k<i> := avals[i] * T<i> (own parameter key T<i>, own unique key a<i>);
+\* any number of them may be given together.  g := aval * Tg.
+TName(i) == "T" \o ToString(i)
+AName(i) == "a" \o ToString(i)
+TgVar == "Tg"
+ExprSlots(cf) == { i \in DOMAIN cf.subs : cf.subs[i] \in {"expr", "expruk"} }
 GVar == "g"
 PKeys == {GVar, FeedVar}                              \* parameter keys a constants object may define
 KName(i) == "k" \o ToString(i)
@@ -68,8 +74,6 @@ PName(i) == "p" \o ToString(i)
 QName(i) == "q" \o ToString(i)
 Substs == { subst[j] : j \in DOMAIN subst }
 HasG(cf) == \E i \in DOMAIN cf.kinds : cf.kinds[i] = "ma_pk"
-NExprSubs(cf) == Cardinality({ i \in DOMAIN cf.subs : cf.subs[i] \in {"expr", "expruk"} })
-                 + (IF cf.gsub = "expr" THEN 1 ELSE 0)
 
 IsConfig(cf, n) ==
     /\ cf.builder \in {"get_odesys", "create_odesys"}
@@ -78,6 +82,9 @@ IsConfig(cf, n) ==
     /\ Len(cf.subs) = n /\ \A i \in 1..n : cf.subs[i] \in SubKinds
     /\ Len(cf.subvals) >= n /\ \A i \in 1..n : IsQ(cf.subvals[i])
     /\ IsQ(cf.aval) /\ IsQ(cf.tval) /\ IsQ(cf.qval)
+    /\ Len(cf.avals) >= n /\ Len(cf.tvals) >= n
+    /\ \A i \in 1..n : IsQ(cf.avals[i]) /\ IsQ(cf.tvals[i])
+    /\ cf.alias \in BOOLEAN
     /\ cf.gsub \in {"none", "num", "expr"} /\ cf.fsub \in {"none", "num"}
     /\ cf.psym \in {"none", "order", "rev"} /\ cf.symodict \in BOOLEAN
     /\ cf.rebuild \in BOOLEAN /\ cf.implicit \in BOOLEAN
@@ -86,8 +93,6 @@ IsConfig(cf, n) ==
     /\ SeqSet(cf.consts) \subseteq PKeys
     /\ IsQ(cf.gval) /\ IsQ(cf.gsubval) /\ IsQ(cf.gconst) /\ IsQ(cf.fsubval) /\ IsQ(cf.fconst)
     /\ (cf.symorder = <<>> \/ (IsOrder(cf.symorder) /\ SeqSet(cf.symorder) = Substs))
-    \* modelling bound: at most one expression substitution (one T, one a1)
-    /\ NExprSubs(cf) <= 1
 
 (* which combinations the builders accept *)
 Accepted(cf, n) ==
@@ -125,7 +130,7 @@ QVal(cf, i) == IF cf.subs[i] = "num2" THEN cf.subvals[i] ELSE cf.qval
 GFree(cf) == HasG(cf) /\ cf.gsub = "none" /\ GVar \notin SeqSet(cf.consts)
 FFree(cf) == cf.cstr /\ cf.fsub = "none" /\ FeedVar \notin SeqSet(cf.consts)
 GTerm(cf) == IF cf.gsub = "num" THEN <<cf.gsubval, EmptyMap>>
-             ELSE IF cf.gsub = "expr" THEN <<cf.aval, EOne(TVar)>>
+             ELSE IF cf.gsub = "expr" THEN <<cf.aval, EOne(TgVar)>>
              ELSE IF GVar \in SeqSet(cf.consts) THEN <<cf.gconst, EmptyMap>>
              ELSE <<QOne, EOne(GVar)>>
 FTerm(cf) == IF cf.fsub = "num" THEN <<cf.fsubval, EmptyMap>>
@@ -147,8 +152,9 @@ ExpectedParams(cf) ==
     \cup (IF cf.cstr THEN FcVars ELSE {})
     \cup (IF FFree(cf) THEN {FeedVar} ELSE {})
     \cup (IF GFree(cf) THEN {GVar} ELSE {})
-    \cup (IF NExprSubs(cf) > 0 THEN {TVar} ELSE {})
-    \cup (IF \E i \in DOMAIN rsys : AFree(cf, i) THEN {AVar} ELSE {})
+    \cup { TName(i) : i \in ExprSlots(cf) }
+    \cup (IF cf.gsub = "expr" THEN {TgVar} ELSE {})
+    \cup { AName(i) : i \in { j \in DOMAIN rsys : AFree(cf, j) } }
     \cup { PName(i) : i \in { j \in DOMAIN rsys : PFree(cf, j) } }
     \cup { QName(i) : i \in { j \in DOMAIN rsys : QFree(cf, j) } }
     \* a complete caller-made symbol table keeps the overridden keys listed (unused)
@@ -158,7 +164,7 @@ ExpectedParams(cf) ==
 \* the rate expression of reaction i: one monomial
 RateTerm(cf, i) ==
     LET r == rsys[i]
-        e == Sparse(r.reac)
+        e == ExpVec(r)
     IN  IF cf.kinds[i] = "ma_pk" THEN <<QMul(r.kv, GTerm(cf)[1]), 0, EMul(e, GTerm(cf)[2])>>
         ELSE IF cf.kinds[i] = "ma_uk2" THEN
             <<QMul(IF PFree(cf, i) THEN QOne ELSE PVal(cf, i), IF QFree(cf, i) THEN QOne ELSE QVal(cf, i)), 0,
@@ -167,8 +173,8 @@ RateTerm(cf, i) ==
         ELSE IF Free(cf, i) THEN <<QOne, r.k, e>>
         ELSE IF cf.subs[i] = "num" THEN <<cf.subvals[i], 0, e>>
         ELSE IF cf.subs[i] \in {"expr", "expruk"} THEN
-            IF AFree(cf, i) THEN <<QOne, 0, EMul(e, EMul(EOne(TVar), EOne(AVar)))>>
-            ELSE <<cf.aval, 0, EMul(e, EOne(TVar))>>
+            IF AFree(cf, i) THEN <<QOne, 0, EMul(e, EMul(EOne(TName(i)), EOne(AName(i))))>>
+            ELSE <<cf.avals[i], 0, EMul(e, EOne(TName(i)))>>
         ELSE <<r.kv, 0, e>>
 ExpectedRatePoly(cf, i) == PolyNorm(<<RateTerm(cf, i)>>)
 \* feed term F*(cf_s - c_s) with the feed ratio resolved
@@ -184,11 +190,16 @@ ExpectedPoly(cf, s) ==
 EffK(cf, i) == IF cf.kinds[i] = "ma_pk" THEN QMul(rsys[i].kv, GEff(cf))
                ELSE IF cf.kinds[i] = "ma_uk2" THEN QMul(PVal(cf, i), QVal(cf, i))
                ELSE IF cf.subs[i] = "num" THEN cf.subvals[i]
-               ELSE IF cf.subs[i] \in {"expr", "expruk"} THEN QMul(cf.aval, cf.tval)
+               ELSE IF cf.subs[i] \in {"expr", "expruk"} THEN QMul(cf.avals[i], cf.tvals[i])
                ELSE rsys[i].kv
 EffSys(cf) == [i \in 1..Len(rsys) |-> [rsys[i] EXCEPT !.kv = EffK(cf, i)]]
 EffFeed(cf) == IF feed.on THEN [feed EXCEPT !.F = FEff(cf)] ELSE feed
-ParamEnv(cf) == [v \in {TVar, AVar, GVar} |-> IF v = TVar THEN cf.tval ELSE IF v = AVar THEN cf.aval ELSE cf.gval]
+ParamEnv(cf) ==
+    [v \in { TName(i) : i \in DOMAIN rsys } \cup { AName(i) : i \in DOMAIN rsys } \cup {TgVar, GVar} |->
+        IF v = TgVar THEN cf.tval
+        ELSE IF v = GVar THEN cf.gval
+        ELSE IF \E i \in DOMAIN rsys : TName(i) = v THEN cf.tvals[CHOOSE i \in DOMAIN rsys : TName(i) = v]
+        ELSE cf.avals[CHOOSE i \in DOMAIN rsys : AName(i) = v]]
 KeyEnv(cf) == [v \in { PName(i) : i \in DOMAIN rsys } \cup { QName(i) : i \in DOMAIN rsys } |->
                   IF \E i \in DOMAIN rsys : PName(i) = v
                   THEN rsys[CHOOSE i \in DOMAIN rsys : PName(i) = v].kv ELSE cf.qval]
@@ -197,7 +208,7 @@ FullEnv(cf) == ParamEnv(cf) @@ KeyEnv(cf) @@ FeedEnv(feed)
 \* only the concentrations stay symbolic
 BindMono(cf, m) ==
     LET kf == IF m[2] = 0 THEN QOne ELSE rsys[m[2]].kv
-        pv == DOMAIN m[3] \ Species
+        pv == DOMAIN m[3] \ (Species \cup SqrtVars)
         f == QProdOver(pv, LAMBDA v : QPow(FullEnv(cf)[v], m[3][v]))
     IN  <<QMul(QMul(m[1], kf), f), 0, [v \in DOMAIN m[3] \ pv |-> m[3][v]]>>
 BindParams(cf, P) == LET ms == SetToSeq(P) IN PolyNorm([i \in 1..Len(ms) |-> BindMono(cf, ms[i])])
@@ -211,7 +222,7 @@ BoundModel(cf, s) ==
 BindEnv(cf) ==
     LET names == ExpectedParams(cf)
     IN  [v \in names |->
-            IF v \in {TVar, AVar, GVar} THEN ParamEnv(cf)[v]
+            IF v \in DOMAIN ParamEnv(cf) THEN ParamEnv(cf)[v]
             ELSE IF v \in DOMAIN KeyEnv(cf) THEN KeyEnv(cf)[v]
             ELSE IF \E i \in DOMAIN rsys : KName(i) = v /\ cf.subs[i] # "none" THEN EffK(cf, CHOOSE i \in DOMAIN rsys : KName(i) = v)
             ELSE IF v \in DOMAIN FeedEnv(feed) THEN FeedEnv(feed)[v]
@@ -256,7 +267,9 @@ Built == phase = "built"
 HasUntouched == Untouched(rsys) \cap Substs # {}
 ConstRHS(cf) == \E s \in Substs \cap Touched(rsys) :
                    \A m \in ExpectedPoly(cf, s) : m[2] = 0 /\ DOMAIN m[3] = {}
-MayRefuse(cf) == HasUntouched \/ ConstRHS(cf)
+\*  - substances handed over under ALIAS keys (key # Substance.name): get_odesys names its variables
+\*    after Substance.name and then looks the reactions' keys up among them (KeyError).
+MayRefuse(cf) == HasUntouched \/ ConstRHS(cf) \/ (cf.alias /\ cf.builder = "get_odesys")
 
 ------------------------------------------------------------------------------
 (* invariants *)
@@ -298,7 +311,7 @@ SymbolOrderIrrelevant == Built =>
 \* every free constant occurs in the equation of some substance and nothing else does
 ParamsAreTheFreeSymbols == Built =>
     LET used == UNION { { KName(m[2]) : m \in { x \in ExpectedPoly(cfg, s) : x[2] # 0 } } : s \in Substs }
-               \cup UNION { UNION { DOMAIN m[3] \ Species : m \in ExpectedPoly(cfg, s) } : s \in Substs }
+               \cup UNION { UNION { DOMAIN m[3] \ (Species \cup SqrtVars) : m \in ExpectedPoly(cfg, s) } : s \in Substs }
     IN  used \subseteq ExpectedParams(cfg)
 
 \* one equation per substance: an untouched substance only sees its feed term
@@ -317,13 +330,14 @@ OTypeOK == phase \in {"build", "ready", "built"} /\ (Built => Accepted(cfg, Len(
 CfgOut(cf) == [builder |-> cf.builder, incl |-> cf.incl, kinds |-> cf.kinds, subs |-> cf.subs,
                cstr |-> cf.cstr, comp |-> cf.comp,
                subvals |-> SubSeq(cf.subvals, 1, Len(rsys)), aval |-> cf.aval, tval |-> cf.tval,
+               avals |-> SubSeq(cf.avals, 1, Len(rsys)), tvals |-> SubSeq(cf.tvals, 1, Len(rsys)), alias |-> cf.alias,
                gsub |-> cf.gsub, fsub |-> cf.fsub, consts |-> cf.consts, symorder |-> cf.symorder,
                gval |-> cf.gval, gsubval |-> cf.gsubval, gconst |-> cf.gconst,
                fsubval |-> cf.fsubval, fconst |-> cf.fconst, qval |-> cf.qval,
                pfull |-> cf.pfull, psym |-> cf.psym, symodict |-> cf.symodict, rebuild |-> cf.rebuild, implicit |-> cf.implicit]
 OClass == cfg.builder \o (IF cfg.incl THEN "-incl" ELSE "-free")
           \o (IF cfg.cstr THEN "-cstr" ELSE "") \o (IF cfg.comp THEN "-comp" ELSE "")
-          \o (IF cfg.consts # <<>> THEN "-consts" ELSE "") \o (IF feed.usermap THEN "-map" ELSE "")
+          \o (IF cfg.alias THEN "-alias" ELSE "") \o (IF cfg.consts # <<>> THEN "-consts" ELSE "") \o (IF feed.usermap THEN "-map" ELSE "")
           \o (IF hist # <<>> THEN "-h" ELSE "") \o (IF cfg.symorder # <<>> THEN "-sym" ELSE "")
           \o (IF HasUntouched THEN "-u" ELSE "") \o (IF ConstRHS(cfg) THEN "-const" ELSE "") \o "-n" \o ToString(Len(rsys))
 OCaseIn == [ subst |-> subst,
